@@ -920,10 +920,12 @@ def pow_lines(rng, fmts, per):
 def frac_lines(rng, n):
     lines = []
     for _ in range(n):
-        E, P = rng.choice([(8, 24), (11, 53), (15, 113), (19, 237), (10, 120), (15, 64)])
+        E, P = rng.choice([(8, 24), (11, 53), (15, 113), (19, 237), (10, 120), (15, 64), (2, 16), (2, 24), (3, 20), (3, 30), (4, 40)])
         s = Sem(E, P, "E")
         k = rng.randrange(8)
-        if k == 0:
+        if E <= 4:  # tiny exponent range: every value is interesting
+            a = rand_finite(rng, s)
+        elif k == 0:
             a = rng.choice(SPECIALS)
         elif k == 1:  # p/q with small q
             q = rng.randrange(1, 200)
